@@ -312,6 +312,28 @@ def batch_contract(ctx, wd):
         want = {"a": True, "b": keep, "c": True, "d": keep, "e": True}
         if exists != want:
             ctx.fail("batch-outputs", "output files present %s, expected %s (keep=%s)" % (exists, want, keep), rp)
+    # file names are byte strings: an input whose name is not valid UTF-8 is compiled like any other, a missing one
+    # fails alone, and neither keeps the other inputs of the command line from being compiled
+    import subprocess
+    odd = [b"caf\xe9.rsyn", b"a\x80b.rsyn", "caf\u00e9-\u4e16.rsyn".encode("utf-8")]
+    bd = os.fsencode(d)
+    for nm in odd:
+        open(os.path.join(bd, nm), "w").write(good)
+    for missing in (False, True):
+        for f in os.listdir(bd):
+            if f.endswith(b".pcap"):
+                os.unlink(os.path.join(bd, f))
+        names = [b"a.rsyn"] + odd + ([b"gone\xff.rsyn"] if missing else []) + [b"c.rsyn"]
+        r = subprocess.run([os.fsencode(common.RESYNTH), b"--color", b"never", b"--out-dir", bd] + [os.path.join(bd, n) for n in names],
+                           stdout=subprocess.PIPE, stderr=subprocess.PIPE, cwd=d)
+        ctx.count("batch")
+        made = sorted(f for f in os.listdir(bd) if f.endswith(b".pcap"))
+        want = sorted(n[:-5] + b".pcap" for n in names if not n.startswith(b"gone"))
+        rp = {"program": "inputs %r on one command line" % names, "stdout": r.stdout.decode("utf-8", "replace")[-1500:],
+              "stderr": r.stderr.decode("utf-8", "replace")[-500:], "rc": r.returncode}
+        if r.returncode != (1 if missing else 0) or made != want or b"panicked" in r.stderr:
+            ctx.fail("batch-non-utf8-name", "exit status %d, outputs %r (expected status %d and %r)"
+                     % (r.returncode, made, 1 if missing else 0, want), rp)
     rc, out, err, to = common.run_resynth_batch(d, ["a", "c"])
     if rc != 0:
         ctx.fail("batch-exit-status", "exit status %d although every input succeeded" % rc, {"program": "a c", "stdout": out})
